@@ -2,11 +2,13 @@ package chain
 
 import (
 	"crypto/sha256"
+	"encoding/binary"
 	"encoding/hex"
 	"encoding/json"
 	"fmt"
 	"math/rand"
 	"os"
+	"strings"
 	"time"
 
 	"github.com/SaoNetwork/sao/app"
@@ -201,6 +203,45 @@ func (r *Replica) SetNodeRound(n int64) {
 	h := r.App.LastBlockHeight()
 	ctx := r.App.BaseApp.NewContext(false, tmproto.Header{ChainID: ChainID, Height: h})
 	r.App.NodeKeeper.SetNodeRound(ctx, uint8(n))
+}
+
+// DumpStores lists the raw key/value contents of the six storage modules' stores at the state the next block starts from:
+// "module:Prefix" -> {hex(key) -> hash(value)}, Prefix being the first path segment of the key ("Node", "NodeRound", ...).
+// Nothing is interpreted: this is what an export/import round trip has to reproduce, whether or not the projection knows
+// the field.
+func (r *Replica) DumpStores() map[string]map[string]string {
+	h := r.App.LastBlockHeight()
+	ctx := r.App.BaseApp.NewContext(h > 0, tmproto.Header{ChainID: ChainID, Height: h})
+	out := map[string]map[string]string{}
+	for _, mod := range []string{"sao", "node", "order", "model", "market", "did"} {
+		key := r.App.GetKey(mod)
+		if key == nil {
+			continue
+		}
+		it := ctx.KVStore(key).Iterator(nil, nil)
+		for ; it.Valid(); it.Next() {
+			k := it.Key()
+			seg := string(k)
+			if i := strings.IndexByte(seg, '/'); i > 0 {
+				seg = seg[:i]
+			} else {
+				seg = "?"
+			}
+			name := mod + ":" + seg
+			if out[name] == nil {
+				out[name] = map[string]string{}
+			}
+			v := it.Value()
+			if string(k) == "Order/count/" && len(v) == 8 && binary.BigEndian.Uint64(v) == 0 {
+				// the order counter reads as 1 when it is absent or 0 (GetOrderCount): the same state
+				v = []byte{0, 0, 0, 0, 0, 0, 0, 1}
+			}
+			hv := sha256.Sum256(v)
+			out[name][hex.EncodeToString(k)] = hex.EncodeToString(hv[:6])
+		}
+		it.Close()
+	}
+	return out
 }
 
 // Export returns the exported application state (genesis JSON of all modules).
